@@ -35,6 +35,18 @@ second none. `_remove_x` leaves no child of the removed kind(s). `get_or_change_
 member of the choice group (members the class removes, united with the members of the enclosing
 non-repeatable xsd:choice).
 
+Property setters. Element classes also add / replace children through hand-written `@x.setter` properties
+(line_spacing, space_before/after, x/y/cx/cy, rot, flipH/V, autofit, anchor, srcRect_*, has_legend, orientation,
+maximum/minimum, horz_offset, text, core-property *_text/_datetime ...). Every property with a setter defined on a
+registered element class that is not an xmlchemy attribute declaration is driven with each value of a small table
+it accepts (None, bool, int, Emu, Pt, float, str, datetime, named strings, and the members of the enum class its
+GETTER returns): on the empty parent, on every single-sibling parent, and - history - after a previous assignment
+of every accepted value (same and different kind); thorough tier also on every single sibling holding one
+schema-permitted grandchild. Judged: pre-valid -> post-valid, by the direct-child order oracle and by deep validation
+of the parent against the relaxed schema (structural errors only: an attribute value can never alarm). When the
+children a value needs cannot coexist with what the PREVIOUS assignment left, and the same assignment on the fresh
+parent is fine, that is reported too ('change to' leaves one member). Setters that raise are not judged.
+
 Deviations from DESIGN.md section 4/C10: (1) the parent is validated as a probe global element of type T
 (`{ns}__CT_X`) instead of inside an ancestor chain; (2) only direct-child order is judged (see above);
 (3) ordered pairs are enumerated for all types (superset of the design); (4) mutators that raise in a
@@ -60,13 +72,17 @@ RULE = ("every registered element tag x every XSD complex type of that tag x eve
         "without the child, later-only, earlier-only; all ordered pairs of kinds; thorough: ordered triples "
         "for repeatable content). A case is counted non-trivial when the context is non-empty, valid under "
         "the relaxed schema, and the call changed the parent's direct-child sequence; cases are distinct by "
-        "construction (tag, type, mutator, context).")
+        "construction (tag, type, mutator, context). Plus every hand-written property setter of an element class "
+        "x accepted table value x (empty | single sibling) x (no history | previous assignment of each accepted "
+        "value); non-trivial there = the assignment changed the subtree and a sibling or a history was present.")
 ASSUMPTIONS = [
     "order oracle = libxml2 on the relaxed ISO/IEC 29500-4 transitional + OPC XSDs shipped in /repo/spec "
     "(probe global element per complex type); siblings are empty elements, xsd:any siblings are not generated",
     "contexts bounded: singles, skeletons, all ordered pairs (thorough: triples for repeatable types with <= 12 kinds)",
     "only the direct-child tag sequence of the modified parent is judged (subtrees are C03's business)",
     "mutators are discovered by method name; hand-written adders get arguments from a table keyed by parameter name",
+    "property setters are driven with a fixed value table (None/bool/int/Emu/Pt/float/str/datetime/enum members of the "
+    "getter's enum); history depth 2 (one previous assignment); deep validation reports structural errors only",
 ]
 
 FLOOR_CLASSES = 150
@@ -488,6 +504,281 @@ def eval_nested(model, tag, T, mname, prefix, prop, kwargs, pr):
     return out
 
 
+# ---- hand-written property setters ----------------------------------------------------------------------
+#
+# Element classes also add / replace children through `@x.setter` properties (line_spacing, space_before, x/y/cx/cy,
+# rot, autofit, srcRect_l ...). They are discovered as properties with a setter that is not an xmlchemy attribute
+# declaration, and driven with every value of a small table the setter accepts, on the empty parent, on every
+# single-sibling parent, and after a PREVIOUS assignment of every other accepted value (history). Judged: the
+# direct-child order oracle plus deep validation of the parent against the relaxed schema (structural errors only).
+
+FLOOR_SETTERS = 80
+SETTER_NAME_VALUES = {"orientation": ["maxMin", "minMax"]}
+_ENUM_MEMBERS_MAX = 6
+
+
+def _base_values():
+    import datetime as dt
+    from pptx.util import Emu, Pt
+    return [("None", None), ("True", True), ("False", False), ("int", 7), ("Emu", Emu(914400)), ("Pt", Pt(20)),
+            ("float", 1.5), ("str", "t"), ("datetime", dt.datetime(2020, 1, 2, 3, 4, 5))]
+
+
+_ENUMS = None
+
+
+def _enum_classes():
+    """name -> enum class, every Enum defined in pptx.enum.*, deterministic order."""
+    global _ENUMS
+    if _ENUMS is None:
+        import enum
+        import importlib
+        import pkgutil
+        out = {}
+        try:
+            import pptx.enum as pe
+            for mi in sorted(pkgutil.iter_modules(pe.__path__), key=lambda m: m.name):
+                try:
+                    mod = importlib.import_module("pptx.enum." + mi.name)
+                except Exception:
+                    continue
+                for n in sorted(vars(mod)):
+                    o = getattr(mod, n)
+                    if isinstance(o, type) and issubclass(o, enum.Enum) and o.__module__ == mod.__name__ and len(o):
+                        out[n] = o
+        except Exception:
+            pass
+        _ENUMS = out
+    return _ENUMS
+
+
+def _value_of(label, pname):
+    for lab, v in _base_values():
+        if lab == label:
+            return v
+    if label.startswith("str="):
+        return label[4:]
+    cname, mname = label.split(".", 1)
+    return _enum_classes()[cname][mname]
+
+
+def discover_setters(cls):
+    """Names of properties with a hand-written setter (attribute declarations excluded)."""
+    out = []
+    try:
+        from pptx.oxml.xmlchemy import BaseAttribute
+    except Exception:
+        BaseAttribute = ()
+    for name in sorted(dir(cls)):
+        if name.startswith("__"):
+            continue
+        try:
+            attr = inspect.getattr_static(cls, name)
+        except AttributeError:
+            continue
+        if not isinstance(attr, property) or attr.fset is None:
+            continue
+        fset = attr.fset
+        if getattr(fset, "__module__", "") == "pptx.oxml.xmlchemy":
+            continue
+        decl = False
+        for cell in getattr(fset, "__closure__", None) or ():
+            try:
+                if BaseAttribute and isinstance(cell.cell_contents, BaseAttribute):
+                    decl = True
+            except ValueError:
+                pass
+        if not decl:
+            out.append(name)
+    return out
+
+
+def _structural(errs):
+    return [m for _, m in errs if "is not expected" in m or "ontent is not allowed" in m]
+
+
+def _deep_errors(parent, T):
+    if T[0] not in (X.NS_P, X.NS_A, X.NS_C):
+        return []
+    try:
+        return _structural(X.SchemaSet.get(True).fragment_errors(parent, T))
+    except Exception:  # noqa
+        return []
+
+
+def _build_nested(tag, ctx, nest):
+    parent = _build(tag, ctx)
+    if nest is not None:
+        from lxml import etree as _et
+        kid = _kids(parent)[0]
+        if len(kid):
+            return None
+        _et.SubElement(kid, nest)
+    return parent
+
+
+def setter_accepts(tag, T, name, ctxs, model):
+    """Labels of the table values the setter takes without raising in at least one of the contexts. Enum members
+    are offered only for the enum class(es) the GETTER returns a member of after a successful assignment (else
+    every int-valued enum would pass for a bool / int setter)."""
+    import enum
+    acc = []
+    workable = []
+    enum_classes = []
+
+    def tries(value, where):
+        for cx in where:
+            try:
+                parent = _build(tag, cx)
+                setattr(parent, name, value)
+            except Exception:  # noqa
+                continue
+            if cx not in workable:
+                workable.append(cx)
+            try:
+                got = getattr(parent, name)
+                if isinstance(got, enum.Enum) and type(got) not in enum_classes:
+                    enum_classes.append(type(got))
+            except Exception:  # noqa
+                pass
+            return True
+        return False
+
+    for lab, v in _base_values():
+        if tries(v, ctxs):
+            acc.append(lab)
+    for v in SETTER_NAME_VALUES.get(name, ()):
+        if tries(v, ctxs):
+            acc.append("str=" + v)
+    if not enum_classes and "int" not in acc and "True" not in acc:
+        where = workable or ctxs
+        for cname, ecls in _enum_classes().items():
+            if tries(next(iter(ecls)), where) and not enum_classes:
+                enum_classes.append(ecls)
+    known = {v: k for k, v in _enum_classes().items()}
+    for ecls in sorted(enum_classes, key=lambda c: c.__name__):
+        if ecls not in known:
+            continue
+        for m in list(ecls)[:_ENUM_MEMBERS_MAX]:
+            if tries(m, workable or ctxs):
+                acc.append("%s.%s" % (known[ecls], m.name))
+    return acc
+
+
+def eval_setter(model, tag, T, name, ctx, nest, prev, val):
+    """One setter case. Returns (status, rule, message, changed); status 'invalid-context' | 'raised' |
+    'prev-invalid' | 'unplaceable' | 'ok' | 'fail'."""
+    from lxml import etree as _et
+    ctx = list(ctx)
+    if not model.valid(T, ctx):
+        return ("invalid-context", None, None, False)
+    parent = _build_nested(tag, ctx, nest)
+    if parent is None or _deep_errors(parent, T):
+        return ("invalid-context", None, None, False)
+    try:
+        if prev is not None:
+            setattr(parent, name, _value_of(prev, name))
+            if not model.valid(T, [e.tag for e in _kids(parent)]) or _deep_errors(parent, T):
+                return ("prev-invalid", None, None, False)
+        pre = _kids(parent)
+        before = _et.tostring(parent)
+        setattr(parent, name, _value_of(val, name))
+    except Exception as e:  # noqa
+        return ("raised", None, type(e).__name__, False)
+    post = _kids(parent)
+    changed = _et.tostring(parent) != before
+    show = lambda tags: "[" + ", ".join(local(t) for t in tags) + "]"  # noqa: E731
+    head = "%s as %s, siblings %s%s%s: .%s = %s" % (
+        ptag(tag), T[1], show(ctx), " (first holding <%s/>)" % local(nest) if nest else "",
+        ", after .%s = %s" % (name, prev) if prev is not None else "", name, val)
+    post_tags = [e.tag for e in post]
+    if not model.valid(T, post_tags):
+        pre_ids = set(map(id, pre))
+        base = [e.tag for e in post if id(e) in pre_ids]
+        added = [e.tag for e in post if id(e) not in pre_ids]
+        if not model.placeable(T, base, added):
+            # the children the new value needs cannot coexist with what is there. If what is there was put there by
+            # the PREVIOUS assignment of the same property (and the same assignment on the fresh parent is fine), the
+            # setter failed to replace its own earlier choice: 'change to' must leave one member of the group.
+            if prev is not None and eval_setter(model, tag, T, name, ctx, nest, None, val)[0] == "ok":
+                return ("fail", "setter", head + " -> children %s: the earlier choice was not replaced" % show(post_tags),
+                        changed)
+            return ("unplaceable", None, None, changed)
+        return ("fail", "setter-order", head + " -> children %s which the schema does not allow" % show(post_tags), changed)
+    errs = _deep_errors(parent, T)
+    if errs:
+        bare = X._bare_copy(parent)
+        for el in bare.iter():
+            for k in list(el.attrib):
+                del el.attrib[k]
+            el.text = None
+        xml = _et.tostring(bare).decode()
+        return ("fail", "setter", head + " leaves the subtree invalid: %s; subtree %s" % (errs[0][:160], xml[:300]), changed)
+    return ("ok", None, None, changed)
+
+
+def _rank(label, acc):
+    """Witness preference: plain typed values before the bool aliases of int."""
+    if label is None:
+        return (0, 0)
+    return (1 if label in ("True", "False") else 0, acc.index(label) if label in acc else len(acc))
+
+
+def _work_setter(part, model, thorough, tag, T, name):
+    kinds = model.kinds(T)
+    ctxs = [()] + [(k,) for k in kinds if model.valid(T, [k])]
+    acc = setter_accepts(tag, T, name, ctxs, model)
+    part.count("setter_items")
+    if not acc:
+        part.count("setter_items_never_callable")
+        return
+    cases = []
+    for cx in ctxs:
+        for v in acc:
+            cases.append((cx, None, None, v))
+        for v1 in acc:
+            for v2 in acc:
+                cases.append((cx, None, v1, v2))
+    if thorough:
+        for k, kt in model.index.child_tags(T) if T[0] in (X.NS_P, X.NS_A, X.NS_C) else ():
+            if kt is None or kt not in model.index.ctypes or not model.valid(T, [k]):
+                continue
+            for g in model.kinds(kt):
+                for v in acc:
+                    cases.append(((k,), g, None, v))
+    best = {}
+    judged = 0
+    for (cx, nest, prev, val) in cases:
+        status, rule, msg, changed = eval_setter(model, tag, T, name, cx, nest, prev, val)
+        part.count("setter_evaluations")
+        part.outcome("setter", status)
+        if status in ("ok", "fail"):
+            judged += 1
+            part.count("setter_judged")
+            if prev is not None:
+                part.count("setter_history_judged")
+            if changed and (cx or prev is not None):
+                part.count("nontrivial_count")
+        else:
+            part.count("setter_not_judged_" + status.replace("-", "_"))
+        if status == "fail":
+            key = (len(cx), tuple(local(k) for k in cx), local(nest) if nest else "", prev is not None,
+                   _rank(prev, acc), _rank(val, acc))
+            if rule not in best or key < best[rule][0]:
+                best[rule] = (key, msg, cx, nest, prev, val)
+    if judged:
+        part.count("setter_items_judged")
+    for rule, (key, msg, cx, nest, prev, val) in sorted(best.items()):
+        sig = "C10|%s|%s|%s|%s|ctx=%s%s|prev=%s|val=%s" % (
+            rule, ptag(tag), T[1], name, ",".join(key[1]), ">" + key[2] if key[2] else "", prev or "-", val)
+        part.violation(sig, msg, {"rule": rule, "tag": tag, "type": list(T), "setter": name, "ctx": list(cx),
+                                  "nest": nest, "prev": prev, "val": val})
+    if judged and zlib.crc32(("%s %s" % (tag, name)).encode()) % 23 == 0:
+        part.sample({"parent": ptag(tag), "type": T[1], "setter": name, "accepted_values": acc,
+                     "contexts": len(ctxs), "cases": len(cases)})
+
+
+
 def _kwlabel(kwargs):
     if not kwargs:
         return ""
@@ -517,6 +808,19 @@ def _items(model, classes):
     return items, sorted(set(skipped)), nmut
 
 
+def _setter_items(model, classes):
+    """(tag, T, setter name, "setter", None, "", None) work items; also the number of distinct (class, setter)."""
+    items, per_cls = [], {}
+    for tag in sorted(classes):
+        cls = classes[tag]
+        if cls not in per_cls:
+            per_cls[cls] = discover_setters(cls)
+        for T in model.types_of(tag):
+            for name in per_cls[cls]:
+                items.append((tag, T, name, "setter", None, "", None))
+    return items, sum(len(v) for v in per_cls.values())
+
+
 def _mut_label(mname, label):
     return mname + ("(%s)" % label if label else "")
 
@@ -524,6 +828,9 @@ def _mut_label(mname, label):
 def _work(part, chunk):
     model, classes, thorough = _STATE["model"], _STATE["classes"], _STATE["thorough"]
     for (tag, T, mname, prefix, prop, label, kwargs) in chunk:
+        if prefix == "setter":
+            _work_setter(part, model, thorough, tag, T, mname)
+            continue
         cls = classes[tag]
         pr = prepare(model, cls, tag, T, mname, prefix, prop, kwargs)
         ctxs = model.contexts(T, pr.c, thorough)
@@ -615,6 +922,9 @@ def run(ctx):
         raise HarnessError("discovery found %d element classes < floor %d" % (ncls, FLOOR_CLASSES))
     if nmut < FLOOR_MUTATORS:
         raise HarnessError("discovery found %d mutators < floor %d" % (nmut, FLOOR_MUTATORS))
+    sitems, nset = _setter_items(model, classes)
+    if nset < FLOOR_SETTERS:
+        raise HarnessError("discovery found %d hand-written property setters < floor %d" % (nset, FLOOR_SETTERS))
     no_type = sorted(ptag(t) for t in classes if not model.types_of(t))
 
     # model conformance probe: every skeleton derived from the Index particle tree must be accepted by libxml2
@@ -631,7 +941,7 @@ def run(ctx):
     if bad_skel > max(2, len(types_seen) // 20):
         raise HarnessError("%d particle-tree skeletons rejected by libxml2: Index and relaxed schema disagree" % bad_skel)
 
-    fanout(ctx, _work, ctx.rotate(items), chunk_size=1)
+    fanout(ctx, _work, ctx.rotate(items + sitems), chunk_size=1)
 
     c = ctx.counters
     accounted = c.get("discarded_context_invalid_before_call", 0) + c.get("evaluations", 0) - c.get("decoy_contexts", 0)
@@ -639,17 +949,25 @@ def run(ctx):
         raise HarnessError("contexts generated %d != accounted for %d" % (c.get("contexts_generated", 0), accounted))
     if c.get("judged", 0) < 10000:
         raise HarnessError("only %d judged cases: enumeration is vacuous" % c.get("judged", 0))
+    if c.get("setter_judged", 0) < 1000:
+        raise HarnessError("only %d judged setter cases: setter pass is vacuous" % c.get("setter_judged", 0))
+    c["evaluations"] = c.get("evaluations", 0) + c.get("setter_evaluations", 0)
     ctx.extra.update({
         "registered_tags": len(classes), "element_classes": ncls, "tags_via_registry": via_registry,
         "tags_via_parse_probe_only": via_probe, "mutators_discovered": nmut,
         "work_items(tag,type,mutator,args)": len(items), "complex_types": len(types_seen),
         "mutators_skipped_unknown_arguments": skipped, "tags_without_schema_type": no_type,
         "skeletons_rejected_by_libxml2": bad_skel,
+        "property_setters_discovered": nset, "setter_work_items(tag,type,setter)": len(sitems),
     })
 
 
 def replay(data):
     model, classes, _, _ = _setup(False)
+    if str(data.get("rule", "")).startswith("setter"):
+        status, rule, msg, _ = eval_setter(model, data["tag"], tuple(data["type"]), data["setter"], data["ctx"],
+                                           data.get("nest"), data.get("prev"), data["val"])
+        return msg if status == "fail" and rule == data["rule"] else None
     tag, T, mname, label = data["tag"], tuple(data["type"]), data["mutator"], data.get("label", "")
     cls = classes.get(tag)
     if cls is None:
